@@ -334,6 +334,42 @@ impl World {
         }
     }
 
+    /// The same value written with its product tails nested: as nested literals (style 1) or through
+    /// let-bound variables (style 2, bindings pushed to `lets`); style 0 is the flat spelling.  All three
+    /// denote the same value of the same right-associated product type.
+    pub fn val_styled(&self, v: &V, t: &Ty, style: u8, lets: &mut Vec<String>, counter: &mut usize) -> String {
+        match (v, t) {
+            | (V::Tuple(vals), Ty::Prod(tys)) if style > 0 && vals.len() >= 3 && vals.len() == tys.len() => {
+                // (v0, tail) with tail = the remaining product, recursively
+                let head = self.val_styled(&vals[0], &tys[0], style, lets, counter);
+                let tail_v = vtuple(vals[1..].to_vec());
+                let tail_t = prod(tys[1..].to_vec());
+                let tail = self.val_styled(&tail_v, &tail_t, style, lets, counter);
+                if style == 2 {
+                    *counter += 1;
+                    let name = format!("tl{}", *counter);
+                    lets.push(format!("let {name} : {} = {tail} in", self.ty(&tail_t, false)));
+                    format!("({head}, {name})")
+                } else {
+                    format!("({head}, {tail})")
+                }
+            }
+            | (V::Tuple(vals), Ty::Prod(tys)) if vals.len() == tys.len() => {
+                format!("({})", vals.iter().zip(tys.iter()).map(|(v, t)| self.val_styled(v, t, style, lets, counter)).collect::<Vec<_>>().join(", "))
+            }
+            | (V::Ctor(d, c, inner), _) => {
+                let (name, pty) = &self.datas[*d].ctors[*c];
+                match &**inner {
+                    | V::Unit => format!("{name}()"),
+                    | other => format!("{name}({})", self.val_styled(other, pty, style, lets, counter)),
+                }
+            }
+            | (V::Named(f, inner), Ty::Named(_, it)) => format!("({f} = {})", self.val_styled(inner, it, style, lets, counter)),
+            | (V::Pack(inner), Ty::Pack(it)) => format!("(Unit, {})", self.val_styled(inner, it, style, lets, counter)),
+            | _ => self.val(v),
+        }
+    }
+
     /* --------------------------- pattern spaces --------------------------- */
 
     /// every pattern of constructor depth ≤ `depth` for `t` (tuple patterns in full arity and, for
@@ -565,6 +601,10 @@ pub enum Form {
     LetBinder,
     /// `do p <- ret v ; …` (single row)
     DoBinder,
+    /// value-level function `fn (p : T) => …` of type `T -> Int64` (single row)
+    PureFn,
+    /// value-level `let p = v in …` (single row)
+    ValueLet,
 }
 
 fn program_text(w: &World, t: &Ty, rows: &[P], form: Form) -> String {
@@ -596,6 +636,12 @@ fn program_text(w: &World, t: &Ty, rows: &[P], form: Form) -> String {
         }
         | Form::DoBinder => {
             s.push_str(&format!("{{ fn (v : {ty}) => do {} <- (ret v : Ret {}) ; ret 1 }}\n", w.pat(&rows[0], &mut n), w.ty(t, true)));
+        }
+        | Form::PureFn => {
+            s.push_str(&format!("( fn ({} : {ty}) => 1 : {} -> Int64 )\n", w.pat(&rows[0], &mut n), w.ty(t, true)));
+        }
+        | Form::ValueLet => {
+            s.push_str(&format!("{{ fn (v : {ty}) => ret ( let {} = v in 1 ) }}\n", w.pat(&rows[0], &mut n)));
         }
     }
     s.push_str("end\n");
@@ -630,11 +676,20 @@ pub fn run_program_text(ctx: &Ctx, w: &World, t: &Ty, rows: &[P], form: Form, va
         | Form::FnParam => s.push_str(&format!("fn ({} : {ty}) => ret \"1\"", w.pat(&rows[0], &mut n))),
         | Form::LetBinder => s.push_str(&format!("fn (v : {ty}) => let {} = v in ret \"1\"", w.pat(&rows[0], &mut n))),
         | Form::DoBinder => s.push_str(&format!("fn (v : {ty}) => do {} <- (ret v : Ret {aty}) ; ret \"1\"", w.pat(&rows[0], &mut n))),
+        | Form::PureFn => s.push_str(&format!("fn (v : {ty}) => let g : {aty} -> String = fn ({} : {ty}) => \"1\" in ret ( g v )", w.pat(&rows[0], &mut n))),
+        | Form::ValueLet => s.push_str(&format!("fn (v : {ty}) => ret ( let {} = v in \"1\" )", w.pat(&rows[0], &mut n))),
     }
     s.push_str(" } that\n(");
     let mut expected = Some(String::new());
+    let mut counter = 0usize;
     for (i, v) in values.iter().enumerate() {
-        s.push_str(&format!(" do a{i} <- ! f {} ; ! (stdio/write_line) a{i} {{\n", w.val(v)));
+        let mut lets = vec![];
+        let text = w.val_styled(v, t, (i % 3) as u8, &mut lets, &mut counter);
+        for l in &lets {
+            s.push(' ');
+            s.push_str(l);
+        }
+        s.push_str(&format!(" do a{i} <- ! f {text} ; ! (stdio/write_line) a{i} {{\n"));
         match (rows.iter().position(|p| matches(p, v)), expected.as_mut()) {
             | (Some(idx), Some(e)) => e.push_str(&format!("{}\n", idx + 1)),
             | _ => expected = None,
@@ -654,8 +709,8 @@ fn describe_rows(w: &World, rows: &[P]) -> Vec<String> {
 }
 
 fn effective_form(form: Form, rows: &[P]) -> Form {
-    if matches!(form, Form::FnParam | Form::Copattern) && rows.iter().any(|p| p.has_pack()) {
-        if form == Form::FnParam { Form::LetBinder } else { Form::Match }
+    if matches!(form, Form::FnParam | Form::Copattern | Form::PureFn) && rows.iter().any(|p| p.has_pack()) {
+        if form == Form::Copattern { Form::Match } else { Form::LetBinder }
     } else {
         form
     }
@@ -721,6 +776,13 @@ pub fn check_rows(ctx: &Ctx, w: &World, tname: &str, t: &Ty, rows: &[P], form: F
             let (missing, truncated) = match e {
                 | CoverageError::NonExhaustiveMatch { missing, truncated, .. } => (missing, *truncated),
                 | CoverageError::NonExhaustiveCopatternMatch { missing, truncated, .. } => (missing, *truncated),
+                | other if format!("{other}").starts_with("Non-exhaustive match") => {
+                    // a report kind this harness does not destructure (value-level binders): counted as a report,
+                    // its witnesses are not examined
+                    n_missing += 1;
+                    stats.count("coverage-report-of-another-kind(witnesses-not-examined)");
+                    continue;
+                }
                 | other => {
                     return Err(Fail::new("unexpected-coverage-error-kind", "a non-exhaustive match report", format!("{other}")).with(case()));
                 }
@@ -972,11 +1034,11 @@ pub fn random_case(w: &World, types: &[(&'static str, Ty)], tape: &[u8]) -> (Str
     rows.truncate(14);
     let form = match t.below(6) {
         | 0 if !rows.is_empty() => Form::Copattern,
-        | 1 | 2 if rows.len() == 1 => *t.pick(&[Form::FnParam, Form::LetBinder, Form::DoBinder]),
+        | 1 | 2 if rows.len() == 1 => *t.pick(&[Form::FnParam, Form::LetBinder, Form::DoBinder, Form::PureFn, Form::ValueLet]),
         | 1 if !rows.is_empty() => {
             // a binder takes one row
             rows.truncate(1);
-            *t.pick(&[Form::FnParam, Form::LetBinder, Form::DoBinder])
+            *t.pick(&[Form::FnParam, Form::LetBinder, Form::DoBinder, Form::PureFn, Form::ValueLet])
         }
         | _ => Form::Match,
     };
@@ -1034,7 +1096,7 @@ pub fn run(ctx: &Ctx) -> Report {
             check_rows(ctx, &w, name, ty, rows, Form::Copattern, stats)?;
         }
         if rows.len() == 1 {
-            let form = [Form::FnParam, Form::LetBinder, Form::DoBinder][(hash_of(rows) % 3) as usize];
+            let form = [Form::FnParam, Form::LetBinder, Form::DoBinder, Form::PureFn, Form::ValueLet][(hash_of(rows) % 5) as usize];
             let ok = check_rows(ctx, &w, name, ty, rows, form, stats)?;
             if ok && hash_of(rows) % 4 == 0 {
                 check_run(ctx, &w, name, ty, rows, form, stats)?;
